@@ -124,7 +124,7 @@ class CondNorm:
                     if n["k"] in ("lambda", "construct", "new", "throw"):
                         ok = False
                     elif n["k"] == "call" and not (n.get("cname") in self._PURE or (n.get("op") and n.get("op") not in ("()", "=", "+=", "-=", "++", "--", "<<", ">>"))
-                                                   or self._plain_getter(n)):
+                                                   or self._plain_getter(n) or self._pure_classifier(n)):
                         ok = False
                     elif n["k"] in ("bin", "un") and n.get("op") in ("=", "+=", "-=", "*=", "/=", "++", "--"):
                         ok = False
@@ -171,6 +171,43 @@ class CondNorm:
         if len(rets) != 1 or "val" not in rets[0] or any(m["k"] == "call" for m in h.nodes):
             return False
         return h.nodes[h.strip(rets[0]["val"])]["k"] == "member"
+
+    def _pure_classifier(self, n, depth=0):
+        """call of a free / static function of this program that only computes from its (const) arguments: no assignment to anything but its
+        own locals, no member writes, and every call in it is itself pure (std accessors, operators, other such functions)"""
+        P = self.prog
+        if P is None or not n.get("cusr") or depth > 2 or "recv" in n:
+            return False
+        hs = [P.fns[u] for u in P.resolve(n["cusr"]) if u in P.fns]
+        if len(hs) != 1 or hs[0].kind not in ("function", "method") or not hs[0].file.startswith("oomd/") or not hs[0].cfg:
+            return False
+        if hs[0].kind == "method" and any(m_["k"] == "this" or (m_["k"] == "member" and m_.get("implicit_this")) for m_ in hs[0].nodes):
+            return False
+        h = hs[0]
+        cache = P.__dict__.setdefault("_pure_classifiers", {})
+        if h.usr in cache:
+            return cache[h.usr]
+        cache[h.usr] = False
+        if any(("&" in (p_.get("type") or "") or "*" in (p_.get("type") or "")) and "const" not in (p_.get("type") or "") for p_ in h.params):
+            return False
+        for i, m in enumerate(h.nodes):
+            if m["k"] in ("lambda", "new", "throw"):
+                return False
+            if m["k"] in ("bin", "un") and m.get("op") in ("=", "+=", "-=", "*=", "/=", "|=", "&=", "++", "--"):
+                tgt = h.nodes[h.strip(m.get("l", m.get("sub", -1)))] if m.get("l", m.get("sub", -1)) is not None and m.get("l", m.get("sub", -1)) >= 0 else None
+                if tgt is None or tgt.get("k") != "ref" or tgt.get("dk") != "local":
+                    return False
+            if m["k"] == "ref" and m.get("dk") in ("global", "static_local") and "cval" not in m and not (m.get("type") or "").startswith("const"):
+                return False
+            if m["k"] == "call":
+                if m.get("cname") in self._PURE or (m.get("op") and m.get("op") not in ("()", "=", "+=", "-=", "++", "--", "<<", ">>")):
+                    continue
+                if (m.get("callee") or "").startswith("std::") and m.get("cname") in ("min", "max", "move", "forward", "abs", "tie", "get", "make_pair"):
+                    continue
+                if not self._pure_classifier(m, depth + 1):
+                    return False
+        cache[h.usr] = True
+        return True
 
     def key_hoisted(self, i):
         """key of condition i with hoisted locals replaced by their initialisers, or None when there is nothing to replace."""
@@ -641,6 +678,13 @@ class Flow:
                     facts = [(k, "case:" + str(lab.get("name", lab.get("val"))))]
                 else:
                     facts = [(k, "default")]
+                # `const auto fmt = classify(x); switch (fmt)` states the same about classify(x)
+                try:
+                    kh = self.cn.key_hoisted(t["cond"])
+                except Exception:
+                    kh = None
+                if kh is not None and kh[0] != k:
+                    facts = facts + [(kh[0], facts[0][1])]
         self._edge_facts[key] = facts
         return facts
 
